@@ -18,7 +18,7 @@ pub struct StaticResourceController;
 
 impl Controller for StaticResourceController {
     fn is_matching(request: &Request, _connection: &ConnectionInfo) -> bool {
-        if request.method != METHOD.get {
+        if request.method != METHOD.get && request.method != METHOD.head && request.method != METHOD.options {
             return false;
         }
 
